@@ -197,6 +197,57 @@ type piecewise struct {
 	lastZero bool
 }
 
+// scriptSrc is Model/Source.lean's `Src` in Go: the next answer ⟨n, eof⟩ gives min(n, len(buf), remaining) bytes
+// and io.EOF together with them when it delivers the last byte and eof is set; after the script: as much as fits,
+// EOF on a later call.
+type scriptSrc struct {
+	data   []byte
+	script [][2]int
+}
+
+func (s *scriptSrc) Read(b []byte) (int, error) {
+	if len(s.data) == 0 {
+		return 0, io.EOF
+	}
+	if len(s.script) == 0 {
+		n := copy(b, s.data)
+		s.data = s.data[n:]
+		return n, nil
+	}
+	a := s.script[0]
+	s.script = s.script[1:]
+	k := a[0]
+	if k > len(b) {
+		k = len(b)
+	}
+	last := len(s.data) <= k
+	n := copy(b[:k], s.data)
+	s.data = s.data[n:]
+	if a[1] == 1 && last {
+		return n, io.EOF
+	}
+	return n, nil
+}
+
+func genScript(r *rand.Rand, total int) ([][2]int, string) {
+	var sc [][2]int
+	var parts []string
+	n := r.Intn(40)
+	for i := 0; i < n; i++ {
+		k := []int{0, 1, 7, 1000, 1024, 5000, 31744, 32768, 40000}[r.Intn(9)]
+		if k == 0 && i > 0 && sc[i-1][0] == 0 {
+			k = 3
+		}
+		e := r.Intn(2)
+		sc = append(sc, [2]int{k, e})
+		parts = append(parts, fmt.Sprintf("%d:%d", k, e))
+	}
+	if len(parts) == 0 {
+		return sc, "-"
+	}
+	return sc, strings.Join(parts, ",")
+}
+
 var errSource = errors.New("source failed")
 
 var srcMu sync.Mutex
@@ -772,6 +823,48 @@ func main() {
 				}
 				emit(fmt.Sprintf("xw %d %d %s %s", fr, n, csv(chunks), gen.Hex(stream)), impl)
 			}
+		}
+		// --- xwf: io.Copy INTO the framed writer (xerialWriter.ReadFrom) from a scripted source: block partition = model's
+		for i := 0; i < 25; i++ {
+			n := sizes[r.Intn(len(sizes))]
+			p := payload(r, r.Intn(3), n)
+			sc, scs := genScript(r, n)
+			var buf bytes.Buffer
+			impl := guard(func() string {
+				w := (&snappy.Codec{}).NewWriter(&buf)
+				if _, err := io.Copy(w, &scriptSrc{data: p, script: sc}); err != nil {
+					return "error:" + err.Error()
+				}
+				if err := w.Close(); err != nil {
+					return "error:" + err.Error()
+				}
+				got, err := xerial.Decode(buf.Bytes())
+				if err != nil || !bytes.Equal(got, p) {
+					return "wrong-data"
+				}
+				res, _ := xerialBlocks(buf.Bytes())
+				return res
+			})
+			emit(fmt.Sprintf("xwf %d %s %s", n, scs, gen.Hex(buf.Bytes())), impl)
+		}
+		// --- xrt: io.Copy FROM the reader (xerialReader.WriteTo) over a scripted source
+		for i := 0; i < 25; i++ {
+			n := sizes[r.Intn(len(sizes))]
+			p := payload(r, r.Intn(3), n)
+			stream, _ := refEncode(r, "snappy", p)
+			if r.Intn(4) == 0 {
+				stream = refsnappy.Encode(nil, p)
+			}
+			sc, scs := genScript(r, len(stream))
+			emit(fmt.Sprintf("rt snappy-writeto k%s %s", "0", sum(p))+" s"+fmt.Sprint(len(scs)), guard(func() string {
+				rd := (&snappy.Codec{}).NewReader(&scriptSrc{data: stream, script: sc})
+				defer rd.Close()
+				var out bytes.Buffer
+				if _, err := io.Copy(&out, rd); err != nil {
+					return "error:" + err.Error()
+				}
+				return "ok " + sum(out.Bytes())
+			}))
 		}
 		// --- xr: reader Read-size sequences on reference streams
 		for i := 0; i < 40; i++ {
